@@ -33,6 +33,7 @@
 #include "safe_str_lib.h"
 #else
 #include "safeclib_private.h"
+#include "mem/mem_primitives_lib.h"
 #endif
 
 /**
@@ -90,6 +91,7 @@ EXPORT errno_t _strzero_s_chk(char *dest, rsize_t dmax,
     if (!*dest)
         memset(dest, 0, dmax);
 #endif
+    MEMORY_BARRIER;
 
     return (EOK);
 }
